@@ -23,7 +23,7 @@ LIMITS = ["adjacent high+low surrogate pairs written as two code units are outsi
           "histories of at most 20 steps"]
 ASSUMPTIONS = ["reference serializer / signers / threshold model"]
 
-OPS = ["write", "load", "sign_mem", "sign_mem", "gpg_file", "rewrite_loaded", "load"]
+OPS = ["write", "load", "sign_mem", "sign_mem", "gpg_file", "rewrite_loaded", "load", "write_after_variant"]
 
 
 def plan(tier, seed):
@@ -32,6 +32,7 @@ def plan(tier, seed):
     specs.append({"kind": "repodata", "count": 6 if q else 100})
     specs.append({"kind": "gnupg_hist", "count": 2 if q else 20, "shim": True})
     specs.append({"kind": "values", "count": 300 if q else 8000})
+    specs.append({"kind": "same_file", "count": 30 if q else 600})
     return specs
 
 
@@ -89,6 +90,14 @@ def run_history(case, rec, lib, scratch, real_gpg_fpr=None):
         for step, op in enumerate(case["ops"]):
             before_entries = {k: boundary.fingerprint(v) for k, v in mem["signatures"].items()}
             added = False
+            if op == "write_after_variant":
+                # the path currently holds an ==-equal sibling (numeric flavour changed) with the same signature map
+                vs = flavour_variants(mem["signed"], rng)
+                if vs:
+                    sib = {"signatures": copy.deepcopy(mem["signatures"]), "signed": rng.choice(vs)}
+                    with open(fn, "wb") as f:
+                        f.write(canonjson.canon(sib))
+                op = "write"
             if op == "write" or (op in ("load", "gpg_file", "rewrite_loaded") and not on_disk):
                 o = boundary.call(lib, C.write_metadata_to_file, mem, fn)
                 if not o.accepted:
@@ -282,6 +291,57 @@ def run_repodata(spec, rec, lib):
         rec.case("repodata|%s|%d" % (",".join(ops), len(doc["packages"])), nontrivial="sign" in ops)
 
 
+def flavour_variants(v, rng):
+    """values that compare == in Python but are different JSON values (1 / 1.0 / True, 0 / 0.0 / -0.0 / False)"""
+    paths = [p for p in jsonvals.walk_paths(v) if type(jsonvals.get_path(v, p)) in (int, float, bool)]
+    out = []
+    for p in paths[:6]:
+        x = jsonvals.get_path(v, p)
+        if x != x or x in (float("inf"), float("-inf")):
+            continue
+        for alt in (int(x) if x == int(x) and abs(x) < 2**53 else x, float(x) if abs(x) < 2**53 else x, bool(x) if x in (0, 1) else x, -0.0 if x == 0 else x):
+            if type(alt) is not type(x) or (alt == 0 and str(alt) != str(x)):
+                try:
+                    out.append(jsonvals.set_path(v, p, alt))
+                except Exception:
+                    pass
+    return out
+
+
+def run_same_file(spec, rec, lib):
+    """successive writes to ONE path of values that are ==-equal but different JSON values, and writes over a
+    pre-existing non-canonical file holding the same value: the file must always end up as the canonical bytes"""
+    rng = random.Random(spec["seed"])
+    C = lib.common
+    fn = os.path.join(spec["scratch"], "same.json")
+    n = 0
+    seqs = [fam for fam in jsonvals.NEAR_COLLISION_FAMILIES]
+    for i in range(spec["count"]):
+        base = {"version": rng.choice([1, 0, 2]), "flag": rng.choice([True, False, 1, 0.0]), "xs": [1, 1.0, True, 0, -0.0],
+                "nested": {"n": rng.choice([1, 1.0])}, "s": jsonvals.rand_string(rng, 5)}
+        seqs.append([base] + flavour_variants(base, rng))
+    for seq in seqs:
+        for v in list(seq) + list(reversed(seq)):
+            if c07.has_pair(v):
+                continue
+            for wrapped in (v, {"signatures": {"ab" * 32: {"signature": "cd" * 64}}, "signed": v}):
+                if rng.random() < 0.25:
+                    with open(fn, "wb") as f:  # pre-existing, equal value, other layout
+                        f.write(json.dumps(wrapped, separators=(",", ":")).encode())
+                o = boundary.call(lib, C.write_metadata_to_file, wrapped, fn)
+                n += 1
+                rec.case("samefile|" + boundary.value_fingerprint(wrapped))
+                fb = open(fn, "rb").read() if os.path.exists(fn) else None
+                if not o.accepted or fb != canonjson.canon(wrapped):
+                    rec.violation("file-bytes/write_metadata_to_file/stale-or-noncanonical-after-overwrite",
+                                  "after writing a value over a file that held an ==-equal (but different) value or another layout, "
+                                  "the file is not the canonical form of the value just written (%s)" % o.brief(),
+                                  {"kind": "samefile", "value": wrapped})
+                    break
+    rec.count("same_file_overwrites", n)
+    rec.sample({"same_file": "1 / 1.0 / true and layout variants written successively to one path"})
+
+
 def run_values(spec, rec, lib):
     """write -> load -> write fix-point on bare hostile values (no envelope)"""
     rng = random.Random(spec["seed"])
@@ -309,7 +369,8 @@ def run_values(spec, rec, lib):
 
 
 def run_shard(spec, rec, lib):
-    {"hist": run_hist, "repodata": run_repodata, "gnupg_hist": run_gnupg_hist, "values": run_values}[spec["kind"]](spec, rec, lib)
+    {"hist": run_hist, "repodata": run_repodata, "gnupg_hist": run_gnupg_hist, "values": run_values,
+     "same_file": run_same_file}[spec["kind"]](spec, rec, lib)
 
 
 def finish(merged, tier, seed):
